@@ -121,12 +121,23 @@ package fiber
 // Params: the value captured for a route parameter (or the default).
 // KNOWN DEFECT (immutable-stable fails): returns c.values[i], which (*App).next fills with substrings of
 // utils.UnsafeString(c.path) - /verif/replay/known/c06_params_test.go, candidate repair /verif/fixes/c06_params.diff.
+// C02 (lookup by name): "*" and "+" stand for "*1" and "+1"; the value is that of the FIRST parameter name of the matched
+// route equal to the key - ASCII case ignored unless CaseSensitive - i.e. slot i of the value array for name i; an empty
+// or missing value (and an unknown name, and no matched route) gives the default.
+//@ macro effKey(key) = ite(key == "*" || key == "+", key + "1", key)
+//@ macro nameEq(n, k, cs) = (n == k || (!cs && lower(n) == lower(k)))
+//@ macro paramDefault(d) = ite(len(d) > 0, d[0], "")
 //@ func (*DefaultCtx).Params
-//@   props C06 C07 C05
+//@   props C06 C07 C05 C02
 //@   requires wf-immutable: wfImmutable(c)
 //@   requires path-original-wf: c.app.config.Immutable ==> stable(c.pathOriginal)
 //@   loop 1
 //@     invariant route-is-matched-route: (c.route != nil && route == c.route) || len(route.Params) == 0
+//@     invariant [C02] no-such-name-so-far: forall(k, 0, rangeindex + 1, !nameEq(route.Params[k], effKey(old(key)), c.app.config.CaseSensitive))
+//@   ensures [C02] first-matching-name: old(c.route) != nil ==> forall(i, 0, len(old(c.route).Params),
+//@ ..     nameEq(old(c.route).Params[i], effKey(key), old(c.app.config.CaseSensitive)) && forall(k, 0, i, !nameEq(old(c.route).Params[k], effKey(key), old(c.app.config.CaseSensitive))) ==>
+//@ ..     result == ite(i < maxParams && len(c.values[i]) > 0, c.values[i], paramDefault(defaultValue)))
+//@   ensures [C02] no-such-name: old(c.route) == nil || forall(i, 0, len(old(c.route).Params), !nameEq(old(c.route).Params[i], effKey(key), old(c.app.config.CaseSensitive))) ==> result == paramDefault(defaultValue)
 //@   ensures [C06] immutable-stable: old(c.app.config.Immutable) ==> stable(result) || orDefault(result, defaultValue)
 //@   ensures [C05] value-of-this-match: result == "" || orDefault(result, defaultValue) || (old(c.route) != nil && exists(i, 0, len(old(c.route).Params), result == c.values[i] && len(c.values[i]) > 0))
 
